@@ -946,7 +946,7 @@ def c24_anno(R):
 
 @rule(
     "C24.query",
-    props=("C24", "C13"),
+    props=("C24", "C13", "C22"),
     floor=6,
     family="TAB",
     desc="interval queries: min is the least lower bound and max the greatest upper bound over the signed or "
